@@ -13,6 +13,7 @@ whose legs are structural; completeness of the search is NOT decided.
  R5 helper     : isdisjoint compares consecutive pairs of both lists and returns non-zero on the first common pair;
                  the short lists keep one entry per ROADM crossing with its direction.
  R6 groups     : deduplicate_disjunctions removes a group only when another group has exactly the same request set.
+ Rm memo          : every memoisation construct in the functions behind this property is keyed by everything it reads.
 """
 import ast
 
@@ -369,5 +370,10 @@ def r6_groups(ctx):
     ctx.need('R6.groups', 2)
 
 
+
+from ..memo import rule_for as _memo_rule
+
+RULES_MEMO = ('Rm.memo', _memo_rule('C12', 'candidates computed for another request would be reused'))
+
 RULES = [('R1.acceptance', r1_acceptance), ('R2.shrink-only', r2_shrink), ('R3.must-raise', r3_raise), ('R4.cutoff', r4_cutoff),
-         ('R5.helper', r5_helper), ('R6.groups', r6_groups)]
+         ('R5.helper', r5_helper), ('R6.groups', r6_groups), RULES_MEMO]
